@@ -1,6 +1,7 @@
 from vf.props.common import *
 from vf.props.e4cfg import *
 LEVEL = 'other'
+JOBS = 6      # each obligation runs a portfolio of z3 processes on big-integer polynomials: memory-bound, keep the machine below saturation
 EXPLANATION = ('Hybrid (see C02): taps by concrete execution of the real library, deciding step by z3 over the frequency continuum. '
                'For every phase setting of the list the phase-transformed filters (lsx_fir_to_phase output, intercepted) and the whole-conversion '
                'prototypes meet the SAME pass-band and stop-band bounds as linear phase (|H|^2 polynomial from the autocorrelation); settings p and '
